@@ -347,3 +347,218 @@ def suite_mul(g, n, big=False):
             A = g.mat(m, l)
             BT = g.mat(nn, l, place='o')
             g.add(op, '%s %s %s %d' % (g.mat(m, nn, kind='dense'), A, BT, rng.randint(0, 1)), m=m, l=l, n=nn)
+
+
+# ------------------------------------------------------------------ C02..C07
+def profile_matrix(g, r, c):
+    """rows of an r x c matrix with a structured rank profile; returns rows"""
+    rng = g.rng
+    mode = rng.choice(['profile', 'profile', 'dense', 'sparse', 'zero', 'gap', 'lowrank', 'wordgap'])
+    if mode == 'profile':
+        rows, _ = g.rank_profile_rows(r, c)
+        return rows
+    if mode == 'gap':
+        # pivots only left of a gap and right of it; the gap crosses word boundaries
+        lo = rng.randint(0, max(0, min(c - 1, 70)))
+        gap = rng.randint(1, 130)
+        cols = [x for x in range(c) if x < lo or x >= lo + gap]
+        k = min(len(cols), r, rng.randint(0, min(r, c)))
+        piv = sorted(rng.sample(cols, k)) if k else []
+        rows, _ = g.rank_profile_rows(r, c, pivots=piv)
+        return rows
+    if mode == 'wordgap':
+        # zero column block starting at a non-word-aligned column and running into complete words
+        rows = g.rows_random(r, c)
+        lo = rng.randint(1, max(1, c - 1))
+        ln = rng.randint(20, 140)
+        mask = ((1 << c) - 1) ^ (((1 << ln) - 1) << lo)
+        rows = [v & mask for v in rows]
+        # keep an identity part on the left so that the block is met mid-elimination
+        for i in range(min(lo, r, 12)):
+            rows[i] |= 1 << i
+        return rows
+    return g.rows_kind(r, c, mode)
+
+
+def edim(g, big=False):
+    rng = g.rng
+    if big and rng.random() < 0.3:
+        return rng.choice([200, 255, 256, 257, 300, 384, 400, 500, 513])
+    x = rng.random()
+    if x < 0.5:
+        return rng.choice([1, 2, 3, 7, 8, 15, 16, 17, 31, 32, 33, 63, 64, 65, 66, 100, 127, 128, 129, 130, 150, 193])
+    return rng.randint(1, 150)
+
+
+def suite_echelon(g, n, big=False):
+    rng = g.rng
+    for _ in range(n):
+        op = rng.choice(['gauss_delayed', 'echelonize_naive', 'echelonize_m4ri', 'echelonize_m4ri', 'echelonize_m4ri_h',
+                         'echelonize_pluq', 'echelonize_pluq', 'echelonize', 'top_echelonize_m4ri'])
+        r, c = edim(g, big), edim(g, big)
+        rows = profile_matrix(g, r, c)
+        full = rng.randint(0, 1)
+        if op == 'gauss_delayed':
+            sc = rng.choice([0, 0, rng.randint(0, min(r, c))])
+            g.add(op, '%s %d %d' % (g.mat(r, c, rows), sc, full), r=r, c=c)
+        elif op == 'echelonize_naive':
+            g.add(op, '%s %d' % (g.mat(r, c, rows), full), r=r, c=c)
+        elif op == 'echelonize_m4ri':
+            g.add(op, '%s %d %d' % (g.mat(r, c, rows), full, rng.randint(0, 10)), r=r, c=c, full=full)
+        elif op == 'echelonize_m4ri_h':
+            g.add(op, '%s %d %d %d' % (g.mat(r, c, rows), full, rng.randint(0, 8), rng.choice([0, 15, 50, 100])), r=r, c=c,
+                  full=full)
+        elif op in ('echelonize_pluq', 'echelonize'):
+            g.add(op, '%s %d' % (g.mat(r, c, rows), full), r=r, c=c, full=full)
+        else:
+            # top reduction expects a row echelon form: take the (non-reduced) echelon form of a random matrix
+            ech = py_echelon(rows, r, c)
+            g.add(op, '%s %d' % (g.mat(r, c, ech), rng.randint(0, 8)), r=r, c=c)
+
+
+def py_echelon(rows, r, c):
+    """plain (non-reduced) row echelon form, zero rows last"""
+    rows = list(rows)
+    piv = 0
+    for col in range(c):
+        p = None
+        for i in range(piv, r):
+            if (rows[i] >> col) & 1:
+                p = i
+                break
+        if p is None:
+            continue
+        rows[piv], rows[p] = rows[p], rows[piv]
+        for i in range(piv + 1, r):
+            if (rows[i] >> col) & 1:
+                rows[i] ^= rows[piv]
+        piv += 1
+        if piv == r:
+            break
+    return rows
+
+
+def junk_perm(g, n):
+    """initial contents of P/Q: the routines must not depend on them"""
+    rng = g.rng
+    k = rng.choice(['id', 'zero', 'desc', 'big'])
+    if k == 'id':
+        v = list(range(n))
+    elif k == 'zero':
+        v = [0] * n
+    elif k == 'desc':
+        v = list(range(n - 1, -1, -1))
+    else:
+        v = [rng.randint(0, 2 * n + 5) for _ in range(n)]
+    return 'p %d %s' % (n, ' '.join(map(str, v))) if n else 'p 0'
+
+
+def suite_ple(g, n, big=False):
+    rng = g.rng
+    for _ in range(n):
+        op = rng.choice(['ple_naive', 'pluq_naive', 'ple', 'ple', 'pluq', 'pluq', 'ple_russian', 'pluq_russian'])
+        r, c = edim(g, big), edim(g, big)
+        rows = profile_matrix(g, r, c)
+        M = g.mat(r, c, rows)
+        P, Q = junk_perm(g, r), junk_perm(g, c)
+        if op in ('ple_naive', 'pluq_naive'):
+            g.add(op, '%s %s %s' % (M, P, Q), r=r, c=c)
+        elif op in ('ple', 'pluq'):
+            g.add(op, '%s %s %s %d' % (M, P, Q, rng.choice([0, 0, 64, 128, 256])), r=r, c=c)
+        else:
+            # _mzd_ple_russian needs an owned, non-windowed copy (that is how _mzd_ple calls it)
+            M = g.mat(r, c, rows, place='o')
+            g.add(op, '%s %s %s %d' % (M, P, Q, rng.randint(0, 10)), r=r, c=c)
+
+
+def tri_rows(g, n, upper, junk=True):
+    """unit triangular n x n with arbitrary data in the other triangle (when junk)"""
+    rng = g.rng
+    kind = rng.choice(['dense', 'dense', 'sparse', 'identity', 'super'])
+    rows = []
+    for i in range(n):
+        if upper:
+            tri = ((rng.getrandbits(n) >> (i + 1)) << (i + 1)) if i + 1 < n else 0
+            other = rng.getrandbits(i) if (junk and i) else 0
+        else:
+            tri = rng.getrandbits(i) if i else 0
+            other = ((rng.getrandbits(n) >> (i + 1)) << (i + 1)) if (junk and i + 1 < n) else 0
+        if kind == 'sparse':
+            tri &= rng.getrandbits(n) & rng.getrandbits(n)
+        elif kind == 'identity':
+            tri = 0
+        elif kind == 'super':
+            tri = (1 << (i + 1)) & ((1 << n) - 1) if upper else ((1 << (i - 1)) if i else 0)
+        rows.append(tri | other | (1 << i))
+    return rows
+
+
+def suite_trsm(g, n, big=False):
+    rng = g.rng
+    for _ in range(n):
+        op = rng.choice(['trsm_ll', 'trsm_ul', 'trsm_ur', 'trsm_lr'])
+        nn = edim(g, big)
+        w = edim(g, big)
+        upper = op in ('trsm_ul', 'trsm_ur')
+        T = g.mat(nn, nn, tri_rows(g, nn, upper, junk=rng.random() < 0.7))
+        if op in ('trsm_ll', 'trsm_ul'):
+            B = g.mat(nn, w)
+        else:
+            B = g.mat(w, nn)
+        g.add(op, '%s %s %d' % (T, B, rng.choice([0, 0, 64, 128, 2048])), n=nn, w=w)
+
+
+def suite_inverse(g, n, big=False):
+    rng = g.rng
+    for _ in range(n):
+        op = rng.choice(['inv_m4ri', 'inv_m4ri', 'invert_naive', 'trtri_upper', 'trtri_upper'])
+        nn = edim(g, big)
+        if op == 'inv_m4ri':
+            A = g.mat(nn, nn, g.invertible_rows(nn))
+            g.add(op, '%s %s %d' % (dst(g, nn, nn), A, rng.randint(0, 10)), n=nn)
+        elif op == 'invert_naive':
+            A = g.mat(nn, nn, g.invertible_rows(nn))
+            I = g.mat(nn, nn, [(1 << i) for i in range(nn)])
+            g.add(op, '%s %s %s' % (dst(g, nn, nn), A, I), n=nn)
+        else:
+            U = g.mat(nn, nn, tri_rows(g, nn, True, junk=False))
+            g.add(op, '%s' % U, n=nn)
+
+
+def suite_solve(g, n, big=False):
+    rng = g.rng
+    for _ in range(n):
+        op = rng.choice(['solve_left', 'solve_left', 'pluq_solve_left', 'kernel'])
+        m, nn = edim(g, big), edim(g, big)
+        rows = profile_matrix(g, m, nn)
+        A = g.mat(m, nn, rows)
+        if op == 'kernel':
+            g.add(op, '%s %d' % (A, rng.choice([0, 0, 64, 128])), m=m, n=nn)
+            continue
+        k = rng.choice([1, 1, 2, 17, 63, 64, 65, 130])
+        R = max(m, nn)
+        mode = rng.choice(['consistent', 'consistent', 'random', 'perturb', 'padrow', 'zero'])
+        # X0 : nn x k ; B = Apad * X0
+        X0 = g.rows_random(nn, k)
+        B = []
+        for i in range(R):
+            v = 0
+            if i < m:
+                a = rows[i] & ((1 << nn) - 1)
+                j = 0
+                while a:
+                    if a & 1:
+                        v ^= X0[j]
+                    a >>= 1
+                    j += 1
+            B.append(v)
+        if mode == 'random':
+            B = g.rows_random(R, k)
+        elif mode == 'perturb':
+            B[rng.randrange(R)] ^= 1 << rng.randrange(k)
+        elif mode == 'padrow' and R > m:
+            B[rng.randint(m, R - 1)] ^= 1 << rng.randrange(k)
+        elif mode == 'zero':
+            B = [0] * R
+        check = rng.choice([1, 1, 1, 0])
+        g.add(op, '%s %s %d %d' % (A, g.mat(R, k, B), rng.choice([0, 0, 64, 128]), check), m=m, n=nn, k=k, mode=mode)
